@@ -41,12 +41,12 @@ impl SegmentIter {
             IterDirection::Forward => offsets_index,
             IterDirection::Reverse => {
                 offsets.reverse();
-                if offsets_index == 0 && !offsets.is_empty() {
-                    0 // Start from first index after reversal (which is the last event)
-                } else if offsets_index < offsets.len() {
+                if offsets_index < offsets.len() {
+                    // `offsets_index` addresses the start position in ascending order (index 0
+                    // is the first event of the segment, which comes last after the reversal)
                     offsets.len() - 1 - offsets_index
                 } else {
-                    0
+                    0 // At or beyond the end: start from the last event
                 }
             }
         };
